@@ -2873,6 +2873,7 @@ static int scan_delim_string(struct scanner_s *scanner) {
                         /* test for a third delimiter character */
                         if (c == delim) {
                             scanner->next_char += 1;
+                            POSN_INCCOLUMN(scanner, 1);
                             return scan_triple_delim_string(scanner);
                         }
                     }
@@ -2950,6 +2951,8 @@ static int scan_triple_delim_string(struct scanner_s *scanner) {
             } else {
                 delim_count = 0;
                 if (CLASS_OF(c, scanner) == EOL_CLASS) {
+                    /* SCAN_UCHAR() counted the terminator itself, but it is not part of the line's length */
+                    POSN_INCCOLUMN(scanner, -1);
                     HANDLE_EOL(scanner, c, sol);
                 } else {
                     sol = 0;
@@ -3021,6 +3024,8 @@ static int scan_text(struct scanner_s *scanner) {
                         struct scanner_s *_s_eol = (scanner);
                         UChar _c = (c);
 
+                        /* SCAN_UCHAR() counted the terminator itself, but it is not part of the line's length */
+                        POSN_INCCOLUMN(scanner, -1);
                         if (POSN_COLUMN(scanner) > CIF_LINE_LENGTH) {
                             int _ev = _s_eol->error_callback(CIF_OVERLENGTH_LINE, _s_eol->line,
                                     scanner->column, _s_eol->next_char - 1, 0, _s_eol->user_data);
